@@ -1,5 +1,7 @@
 import SdJwt.Lemmas.YamlL
 import SdJwt.Lemmas.YamlParse
+import SdJwt.Lemmas.YamlIssue
+import SdJwt.Lemmas.EndToEnd
 /-!
 # C15 — YAML claims with `!sd` tags mean the same as JSON claims plus those paths
 
@@ -11,7 +13,11 @@ with them succeeds; no tagged node is silently ignored and no untagged node is r
 document can express (tags on keys at any depth — inside sequences, below other tagged keys, in
 single-entry mappings — and on string sequence items), parsing the annotated document `T.toY`
 returns the tree's plain claims and a path list that is, as a multiset, exactly the JSON pointers
-of the marked nodes, nested ones first.  The remaining theorems are the local rules.
+of the marked nodes, nested ones first.  `C15_issuing_succeeds` is the statement's "ordered so that
+issuing with them succeeds": the issuer model run on exactly what `parse_yaml` returns succeeds
+with one disclosure per path; `C15_end_to_end` continues through the wire format and the holder:
+the holder gets back the document without its tags and the reported paths.  The remaining
+theorems are the local rules.
 
 The model starts at the parsed YAML value (`serde_yaml::Value`; YAML text → value is trusted and
 exercised by the generated documents only).
@@ -74,3 +80,96 @@ example :
   refine ⟨?_, ?_, by decide⟩
   · simp [MJ.WF, MMems.WF, MElems.WF, MMems.keysGt, MMems.marks, J.scalar]
   · simp [MJ.YamlOK, MMems.YamlOK, MElems.YamlOK, J.scalar]
+
+/-- **C15: the order is one with which issuing succeeds.** For every marked tree a YAML document
+can express (arrays shorter than 2^64, which is what a `usize` index can address) and every digest
+function that never returns the same value for two draws: the issuer model, run on exactly what
+`parse_yaml` returns — the plain claims and the reported paths in the reported order — succeeds
+and makes one disclosure per reported path.  ("Issuing from the parsed result" *is* issuing from
+the plain claims with those paths: `parse_yaml` returns nothing else.) -/
+theorem C15_issuing_succeeds (mk : Nat → Option String → J → String)
+    (hmk : ∀ i j k v k' v', mk i k v = mk j k' v' → i = j)
+    (T : MJ) (wf : T.WF) (hy : T.YamlOK) (hs : T.Small) :
+    ∃ c paths payload ds, parseYaml T.toY = .ok (c, paths) ∧
+      applyPaths mk 0 c paths = .ok (payload, ds) ∧ ds.length = paths.length := by
+  obtain ⟨hp, Tn, ds, h, hlen⟩ := yaml_paths_markAll mk hmk T wf hy hs
+  have h1 := (applyPaths_markAll mk (T.ypaths []) (T.yaddrs []) 0 T.unmark Tn ds (MJ.unmark_wf T wf) hp h).1
+  rw [MJ.unmark_payload] at h1
+  exact ⟨T.plain, T.ypaths [], Tn.payload, ds.map toSrc, C15_parse T wf hy, h1, by simpa using hlen⟩
+
+/-- **C15 end to end: what the holder gets back is the document without its tags.** For a YAML
+mapping that tags at least one node: issue from what `parse_yaml` returns, serialise, hand the
+token to the holder (runtime assumptions exactly those of `C01_end_to_end`: the JWT library
+returns what was signed, each disclosure string decodes to the disclosure it was made from and
+hashes to its digest, no `~` inside a segment): the holder accepts and returns the plain claims
+of the document (plus `cnf` for a bound token), and reports, up to order, exactly the path
+strings `parse_yaml` reported. -/
+theorem C15_end_to_end (rt : Rt) (mk : Nat → Option String → J → String)
+    (hmk : ∀ i j k v k' v', mk i k v = mk j k' v' → i = j)
+    (ms : MMems) (sd : Option (List String))
+    (wf : (MJ.obj ms sd).WF) (hy : (MJ.obj ms sd).YamlOK) (hs : (MJ.obj ms sd).Small)
+    (hk1 : "_sd_alg" ∉ ms.keys) (hk2 : "cnf" ∉ ms.keys) (hne : (MJ.obj ms sd).ypaths [] ≠ []) :
+    ∃ Tn ds, markAll mk 0 ((MJ.obj ms sd).yaddrs []) (.obj ms.unmark none) = some (Tn, ds) ∧
+      ∀ (decoys : Option (List String)) (cnf : Option MJ) (jwt : String) (header : J) (strs : List String),
+        (∀ l, decoys = some l → l.Nodup ∧ (∀ g ∈ l, g ∉ Tn.digests)) →
+        (∀ X, cnf = some X → X.WF ∧ X.digests = []) →
+        (∀ payload dsrc,
+          encode (MJ.obj ms sd).plain ((MJ.obj ms sd).ypaths []) mk decoys (cnf.map (·.payload)) = .ok (payload, dsrc) →
+          rt.jwtDecode jwt = .ok (header, payload)) →
+        (∀ s ∈ strs, ∃ e ∈ ds, fromBase64 (rt.env "sha-256") s = .ok ⟨s, e.digest, e.key, e.value⟩) →
+        (strs.map (rt.hash "sha-256")).Nodup →
+        (∀ e ∈ ds, ∃ s ∈ strs, rt.hash "sha-256" s = e.digest) →
+        '~' ∉ jwt.toList → (∀ s ∈ strs, '~' ∉ s.toList) →
+        ∃ ps, Holder.verify rt (assemble jwt strs) = .ok (header, expectedClaims ms cnf, ps) ∧
+          (ps.map (·.1)).Perm ((MJ.obj ms sd).ypaths []) := by
+  obtain ⟨hp, Tn, ds, h, hlen⟩ := yaml_paths_markAll mk hmk (.obj ms sd) wf hy hs
+  have hu : (MJ.obj ms sd).unmark = .obj ms.unmark none := by simp [MJ.unmark]
+  rw [hu] at h
+  refine ⟨Tn, ds, h, ?_⟩
+  intro decoys cnf jwt header strs hdec hX hsig hstr hnd hall hj hss
+  have wfu : (MJ.obj ms.unmark none).WF := by rw [← hu]; exact MJ.unmark_wf _ wf
+  have hpl : (MJ.obj ms.unmark none).digests = [] := by rw [← hu]; exact MJ.unmark_digests _
+  have hdsne : ds ≠ [] := by
+    intro e
+    rw [e] at hlen
+    exact hne (List.length_eq_zero_iff.mp hlen.symm)
+  have hpay : (MJ.obj ms.unmark none).payload = (MJ.obj ms sd).plain := by
+    rw [← hu]; exact MJ.unmark_payload _
+  obtain ⟨ps, hv, hperm, _⟩ := holder_verify_issued rt mk ((MJ.obj ms sd).ypaths []) ((MJ.obj ms sd).yaddrs []) ms.unmark Tn ds
+    decoys cnf jwt header strs wfu hpl (by rw [unmark_keys]; exact hk1) (by rw [unmark_keys]; exact hk2) hp h hdsne
+    hdec hX (by rw [hpay]; exact hsig) hstr hnd hall hj hss
+  refine ⟨ps, ?_, ?_⟩
+  · have : expectedClaims ms.unmark cnf = expectedClaims ms cnf := by
+      unfold expectedClaims
+      cases cnf <;> simp [MMems.unmark_project]
+    rw [← this]; exact hv
+  · have hclear : (MJ.obj ms.unmark none).allMarks = [] := by
+      apply List.eq_nil_iff_forall_not_mem.mpr
+      intro g hg
+      have := MJ.allMarks_sub_digests _ wfu g hg
+      rw [hpl] at this
+      cases this
+    have haddr : ∀ a ∈ (MJ.obj ms sd).yaddrs [], Addressable (MJ.obj ms.unmark none) a := by
+      rw [← hu]; exact yaddrs_addressable _ wf hy hs
+    have hcanon := issued_pointers_r mk _ _ Tn ds hclear haddr (MJ.yaddrs_nested _ [] wf) h
+    have hr := MJ.ypaths_render (MJ.obj ms sd) []
+    simp only [List.map_nil] at hr
+    rw [← hr] at hcanon
+    have h2 := hperm.map (·.1)
+    simp only [List.map_map] at h2
+    exact h2.trans hcanon
+
+/-- non-vacuity of `C15_issuing_succeeds` / `C15_end_to_end`: the document of the example above
+(a tagged key below a tagged key with `/` in its name, inside a sequence, next to a tagged item)
+meets every hypothesis, and so does the digest function "draw counter" -/
+example :
+    let T : MJ := .obj (.clear "l" (.arr (.clear (.obj (.marked "a/b" "d1"
+                        (.obj (.marked "c" "d2" (.leaf (.str "x")) .nil) (some ["d2"])) .nil) (some ["d1"]))
+                      (.marked "d3" (.leaf (.str "s")) .nil))) .nil) none
+    T.Small ∧ T.ypaths [] ≠ [] ∧
+      (∀ i j (k : Option String) (v : J) (k' : Option String) (v' : J),
+        (fun (n : Nat) (_ : Option String) (_ : J) => toString n) i k v =
+        (fun (n : Nat) (_ : Option String) (_ : J) => toString n) j k' v' → i = j) := by
+  refine ⟨?_, by decide, fun i j _ _ _ _ h => toString_nat_inj h⟩
+  simp [MJ.Small, MMems.Small, MElems.Small, elemCount]
+
